@@ -456,6 +456,70 @@ def rule_keyorder(F, R, rule="R14-keyorder"):
     R.floor(rule, "hand-written visit_map implementations", n, 4)
 
 
+def rule_unknownkey(F, R, rule="R14-unknownkey"):
+    """JSON naming an unknown key is rejected: in the context's visit_map every value is read either as the list section
+    (under the test that the key is the list-section literal) or as the value of a key the scheme resolved; nothing is
+    skipped"""
+    E = F.engine
+    hs = E.hirs(r"^<.*execution_context::.* as serde_core::de::Visitor>::visit_map$")
+    hs = [h for h in hs if "$lists" in set(common.str_lits(h["body"], E))]
+    if len(hs) != 1:
+        return R.cannot(rule, "the context's visit_map", "anchor not found (%d)" % len(hs))
+    h = hs[0]
+    fn = norm(h["path"])
+    S = sem.Sem(E, h)
+    sites = S.sites()
+    vals = [x for x in sites if x.node.get("k") == "MethodCall" and x.node["m"] in ("next_value", "next_value_seed", "next_entry", "next_entry_seed")]
+    R.floor(rule, "value requests in the context's visit_map", len(vals), 2)
+
+    def key_is_list_literal(pc):
+        lits, _ = sem.literals(pc)
+        for a, pol in lits:
+            if not pol:
+                continue
+            if a.kind == "cmp" and a.op == "Eq" and "$lists" in (lit_value(sem.peel(a.l.node)), lit_value(sem.peel(a.r.node))):
+                return True
+            if a.kind == "is" and a.alts and all("$lists" in str(alt) for alt in a.alts):
+                return True
+        return False
+
+    def key_resolved(pc):
+        lits, _ = sem.literals(pc)
+        for a, pol in lits:
+            if pol and a.kind == "ok" and any(norm(c.get("callee", "")) in ("scheme::Scheme::get_field", "scheme::Scheme::get")
+                                              for c in exprs(a.node, ("Call", "MethodCall"))):
+                return True
+        return False
+    n_list = n_field = 0
+    for x in vals:
+        tys = " ".join(norm(str(a_.get("ty", ""))) for a_ in x.node.get("args", [])) + " " + norm(str(x.node.get("ty", "")))
+        is_list_seed = any(c.get("callee_kind", "").startswith("Ctor") and last_seg(norm(c.get("callee", ""))) == "ListMatcherSlice"
+                           for a_ in x.node.get("args", []) for c in exprs(a_, "Call"))
+        if "IgnoredAny" in tys:
+            R.violation(rule, fn, "no value is skipped", "a value is read as IgnoredAny: the key it belongs to is accepted without "
+                        "being a declared field or the list section", x.node["sp"])
+        elif is_list_seed:
+            n_list += 1
+            R.check(key_is_list_literal(x.pc), rule, fn, "the list section is read only under the key `$lists`", where=x.node["sp"])
+        else:
+            n_field += 1
+            R.check(key_resolved(x.pc), rule, fn, "any other value is read only after the scheme resolved its key as a field (unknown keys fail)",
+                    "a value request that is not the list section must follow a successful Scheme::get_field(key)?", x.node["sp"])
+    R.check(n_list >= 1 and n_field >= 1, rule, fn, "both kinds of entries (list section, field values) are read", "%d / %d" % (n_list, n_field), h["span"])
+    # nowhere in the crate is input skipped by a hand-written reader
+    skipped = []
+    for hb in E.hir_list:
+        if "body" not in hb or "::tests::" in norm(hb["path"]):
+            continue
+        for c in exprs(hb["body"], ("Call", "MethodCall")):
+            if "IgnoredAny" in norm(str(c.get("ty", ""))) and not c.get("x"):
+                skipped.append((norm(hb["path"]), c.get("sp", "")))
+    for p_, sp in skipped:
+        R.violation(rule, p_, "no hand-written reader skips input (IgnoredAny)", "unknown input must be an error", sp)
+    if not skipped:
+        R.ok(rule, "engine", "no hand-written reader skips input (IgnoredAny)")
+
+
 def _inside_loop_any(body, node):
     found = [False]
 
@@ -476,6 +540,7 @@ def run(F, R, tier):
     rule_panic(F, R)
     rule_lenhint(F, R)
     rule_keyorder(F, R)
+    rule_unknownkey(F, R)
     n = rule_borrow(F, R, scope=lambda fn: "scheme::Scheme" not in fn and "SerdeField" not in fn)
     R.floor("R14-borrow", "typed serde requests", n, 30)
     rule_store(F, R)
